@@ -1,35 +1,129 @@
 (* Re-checked on every run against the eight convert_*_index_to_*_index functions REGENERATED from /repo's
-   state.py / povm.py / gate.py / mprocess.py: each equals the hand-written model of Model/C03_Index.v. *)
+   state.py / povm.py / gate.py / mprocess.py (gen/py2coq.py, group "var_index" of gen/signatures.json):
+   (1) each regenerated function equals the hand-written model of Model/C03_Index.v, for ALL integer arguments;
+   (2) the C03 index theorems, transported to the regenerated functions: each pair is a pair of mutually inverse
+       bijections  [0, num_variables) <-> free entries  for every d > 0, every m, both flags;
+   (3) the regenerated var->object maps point at the entry of the (modelled) stacked vector that holds the
+       variable's value.
+   Abstractions made by the signature table (trusted, compared by execution in the index_maps sub-check):
+   c_sys.dim -> dim, len(hss) -> num_hss, vecs[0].shape[0] -> size (instantiated with d*d below). *)
 From Coq Require Import ZArith List Bool Lia.
-From QV.Model Require Import C03_Index.
+From QV.Core Require Import OF.
+From QV.Model Require Import C03_Index C03_VarObj.
+From QV.Proofs Require Import C03_Index C03_VarObj.
 From QVGen Require Import Gen_var_index.
 Local Open Scope Z_scope.
 
+(* ------------------------------------------------------------------ (1) equivalence with the model *)
+(* One tactic for all eight: case analysis on the flag and on every integer test, then linear arithmetic over the
+   products / quotients as atoms.  Deliberately NOT just [reflexivity]: a behaviour-preserving rewrite of the Python source
+   (re-associated sums, `x -= n` instead of a conditional expression, early returns ...) must keep these proofs going. *)
+Ltac case_tests :=
+  repeat match goal with
+         | |- context [Z.eqb ?a ?b] => destruct (Z.eqb_spec a b)
+         | |- context [Z.ltb ?a ?b] => destruct (Z.ltb_spec a b)
+         | |- context [Z.leb ?a ?b] => destruct (Z.leb_spec a b)
+         end.
+Ltac finish := try reflexivity; try lia; repeat (f_equal; try lia); try ring.
+Ltac solve_equiv :=
+  intros;
+  repeat match goal with x : (_ * _)%type |- _ => destruct x end;
+  repeat match goal with b : bool |- _ => destruct b end;
+  cbv beta iota zeta delta
+    [gen_state_var_to_idx gen_state_idx_to_var gen_povm_var_to_idx gen_povm_idx_to_var gen_gate_var_to_idx gen_gate_idx_to_var
+     gen_mprocess_var_to_idx gen_mprocess_idx_to_var
+     state_index_of_var var_of_state_index povm_index_of_var var_of_povm_index gate_index_of_var var_of_gate_index
+     mproc_index_of_var var_of_mproc_index andb orb negb];
+  case_tests; finish.
+
 Theorem gen_state_var_to_idx_eq : forall i flag, gen_state_var_to_idx i flag = state_index_of_var flag i.
-Proof. intros i [|]; reflexivity. Qed.
+Proof. solve_equiv. Qed.
 Print Assumptions gen_state_var_to_idx_eq.
 Theorem gen_state_idx_to_var_eq : forall k flag, gen_state_idx_to_var k flag = var_of_state_index flag k.
-Proof. intros k [|]; reflexivity. Qed.
+Proof. solve_equiv. Qed.
 Print Assumptions gen_state_idx_to_var_eq.
 Theorem gen_povm_var_to_idx_eq : forall size i flag, gen_povm_var_to_idx size i flag = povm_index_of_var size i.
-Proof. reflexivity. Qed.
+Proof. solve_equiv. Qed.
 Print Assumptions gen_povm_var_to_idx_eq.
 Theorem gen_povm_idx_to_var_eq : forall size p flag, gen_povm_idx_to_var size p flag = var_of_povm_index size p.
-Proof. intros size [x a] flag. reflexivity. Qed.
+Proof. solve_equiv. Qed.
 Print Assumptions gen_povm_idx_to_var_eq.
 Theorem gen_gate_var_to_idx_eq : forall d i flag, gen_gate_var_to_idx d i flag = gate_index_of_var d flag i.
-Proof. intros d i [|]; reflexivity. Qed.
+Proof. solve_equiv. Qed.
 Print Assumptions gen_gate_var_to_idx_eq.
 Theorem gen_gate_idx_to_var_eq : forall d p flag, gen_gate_idx_to_var d p flag = var_of_gate_index d flag p.
-Proof. intros d [r c] [|]; reflexivity. Qed.
+Proof. solve_equiv. Qed.
 Print Assumptions gen_gate_idx_to_var_eq.
 Theorem gen_mprocess_var_to_idx_eq : forall d m i flag,
   gen_mprocess_var_to_idx d m i flag = mproc_index_of_var d m flag i.
-Proof. intros d m i [|]; unfold gen_mprocess_var_to_idx, mproc_index_of_var; cbn [andb];
-  try reflexivity; destruct (i / (d * d * (d * d)) =? m - 1); reflexivity. Qed.
+Proof. solve_equiv. Qed.
 Print Assumptions gen_mprocess_var_to_idx_eq.
 Theorem gen_mprocess_idx_to_var_eq : forall d m p flag,
   gen_mprocess_idx_to_var d m p flag = var_of_mproc_index d m flag p.
-Proof. intros d m [[x r] c] [|]; unfold gen_mprocess_idx_to_var, var_of_mproc_index; cbn [andb];
-  try reflexivity; destruct (x =? m - 1); reflexivity. Qed.
+Proof. solve_equiv. Qed.
 Print Assumptions gen_mprocess_idx_to_var_eq.
+
+(* ------------------------------------------------------------------ (2) the property theorems, about the regenerated functions *)
+Theorem gen_state_index_fwd : forall d flag i, 0 <= i < nv_state d flag ->
+  free_state d flag (gen_state_var_to_idx i flag) /\
+  gen_state_idx_to_var (gen_state_var_to_idx i flag) flag = i /\
+  flat_state (gen_state_var_to_idx i flag) = i + shift_state flag.
+Proof. intros d flag i H. rewrite gen_state_idx_to_var_eq, gen_state_var_to_idx_eq. now apply state_index_fwd. Qed.
+Print Assumptions gen_state_index_fwd.
+Theorem gen_state_index_bwd : forall d flag k, free_state d flag k ->
+  0 <= gen_state_idx_to_var k flag < nv_state d flag /\ gen_state_var_to_idx (gen_state_idx_to_var k flag) flag = k.
+Proof. intros d flag k H. rewrite gen_state_var_to_idx_eq, gen_state_idx_to_var_eq. now apply state_index_bwd. Qed.
+Print Assumptions gen_state_index_bwd.
+
+Theorem gen_povm_index_fwd : forall d m flag i, 0 < d -> 0 <= i < nv_povm d m flag ->
+  free_povm d m flag (gen_povm_var_to_idx (d * d) i flag) /\
+  gen_povm_idx_to_var (d * d) (gen_povm_var_to_idx (d * d) i flag) flag = i /\
+  flat_povm d (gen_povm_var_to_idx (d * d) i flag) = i.
+Proof. intros d m flag i Hd H. rewrite gen_povm_idx_to_var_eq, gen_povm_var_to_idx_eq. now apply povm_index_fwd. Qed.
+Print Assumptions gen_povm_index_fwd.
+Theorem gen_povm_index_bwd : forall d m flag p, 0 < d -> free_povm d m flag p ->
+  0 <= gen_povm_idx_to_var (d * d) p flag < nv_povm d m flag /\
+  gen_povm_var_to_idx (d * d) (gen_povm_idx_to_var (d * d) p flag) flag = p.
+Proof. intros d m flag p Hd H. rewrite gen_povm_var_to_idx_eq, gen_povm_idx_to_var_eq. now apply povm_index_bwd. Qed.
+Print Assumptions gen_povm_index_bwd.
+
+Theorem gen_gate_index_fwd : forall d flag i, 0 < d -> 0 <= i < nv_gate d flag ->
+  free_gate d flag (gen_gate_var_to_idx d i flag) /\
+  gen_gate_idx_to_var d (gen_gate_var_to_idx d i flag) flag = i /\
+  flat_gate d (gen_gate_var_to_idx d i flag) = i + shift_gate d flag.
+Proof. intros d flag i Hd H. rewrite gen_gate_idx_to_var_eq, gen_gate_var_to_idx_eq. now apply gate_index_fwd. Qed.
+Print Assumptions gen_gate_index_fwd.
+Theorem gen_gate_index_bwd : forall d flag p, 0 < d -> free_gate d flag p ->
+  0 <= gen_gate_idx_to_var d p flag < nv_gate d flag /\
+  gen_gate_var_to_idx d (gen_gate_idx_to_var d p flag) flag = p.
+Proof. intros d flag p Hd H. rewrite gen_gate_var_to_idx_eq, gen_gate_idx_to_var_eq. now apply gate_index_bwd. Qed.
+Print Assumptions gen_gate_index_bwd.
+
+Theorem gen_mprocess_index_fwd : forall d m flag i, 0 < d -> 0 <= i < nv_mproc d m flag ->
+  free_mproc d m flag (gen_mprocess_var_to_idx d m i flag) /\
+  gen_mprocess_idx_to_var d m (gen_mprocess_var_to_idx d m i flag) flag = i /\
+  flat_mproc d (gen_mprocess_var_to_idx d m i flag) = i + shift_mproc d m flag i.
+Proof. intros d m flag i Hd H. rewrite gen_mprocess_idx_to_var_eq, gen_mprocess_var_to_idx_eq. now apply mproc_index_fwd. Qed.
+Print Assumptions gen_mprocess_index_fwd.
+Theorem gen_mprocess_index_bwd : forall d m flag p, 0 < d -> free_mproc d m flag p ->
+  0 <= gen_mprocess_idx_to_var d m p flag < nv_mproc d m flag /\
+  gen_mprocess_var_to_idx d m (gen_mprocess_idx_to_var d m p flag) flag = p.
+Proof. intros d m flag p Hd H. rewrite gen_mprocess_var_to_idx_eq, gen_mprocess_idx_to_var_eq. now apply mproc_index_bwd. Qed.
+Print Assumptions gen_mprocess_index_bwd.
+
+(* ------------------------------------------------------------------ (3) "points at the entry holding that variable's value" *)
+(* position in the stacked vector of the entry the REGENERATED var->object map designates *)
+Definition gen_flat_index (F : OF) (o : qop F) (i : Z) : Z :=
+  match o with
+  | QState _ d f _ => flat_state (gen_state_var_to_idx i f)
+  | QGate _ d f _ => flat_gate (Z.of_nat d) (gen_gate_var_to_idx (Z.of_nat d) i f)
+  | QPovm _ d f v => flat_povm (Z.of_nat d) (gen_povm_var_to_idx (Z.of_nat d * Z.of_nat d) i f)
+  | QMproc _ d f h => flat_mproc (Z.of_nat d) (gen_mprocess_var_to_idx (Z.of_nat d) (Z.of_nat (length h)) i f)
+  end.
+Theorem gen_index_points_at_entry : forall (F : OF) (o : qop F) (i : Z),
+  qop_wf F o -> 0 <= i < qop_num_variables F o ->
+  nth (Z.to_nat (gen_flat_index F o i)) (qop_stacked F o) (c0 F) = nth (Z.to_nat i) (qop_to_var F o) (c0 F).
+Proof. intros F o i W H. rewrite <- (qop_index_points F o i W H). f_equal. f_equal.
+  destruct o; cbn [gen_flat_index qop_flat_index];
+  now rewrite ?gen_state_var_to_idx_eq, ?gen_gate_var_to_idx_eq, ?gen_povm_var_to_idx_eq, ?gen_mprocess_var_to_idx_eq. Qed.
+Print Assumptions gen_index_points_at_entry.
